@@ -388,7 +388,7 @@ def check_program(specs, col, tag):
 
 
 def plan(tier, seed):
-    n = 500 if tier == "quick" else 8000
+    n = 800 if tier == "quick" else 8000
     return [{"seed": seed * 1000 + k, "n": n} for k in range(16)]
 
 
